@@ -26,7 +26,7 @@ DESIGN_REF = "DESIGN.md section 4.11"
 TECHNIQUE = ("rely/guarantee decomposition; both halves by solver-enumerated (CrossHair+z3 selectors) interference "
              "position x action over the real Memory/store code on a model file system with an event hook before "
              "every primitive")
-LEVEL_TEXT = ("Every file-system primitive of 7 participant workloads x 12 interference actions (quick: one per run, "
+LEVEL_TEXT = ("Every file-system primitive of 7 participant workloads x 13 interference actions (quick: one per run, "
               "thorough: two): the participant returns the right value and raises nothing; every mutation the participant "
               "issues itself belongs to the interference relation, which closes the argument for any number of processes.")
 LEVEL_NOTE = ("Trusted: CrossHair/z3 for completeness; the file-system model (POSIX rename atomicity, non-atomic rmtree); the "
@@ -41,7 +41,7 @@ OUTSIDE = ["more than 2 interference actions per run", "non-joblib writers in th
 SRC = "def f(a, b=2):\n    return ('val', a, b)\n\ndef h(a):\n    return ('h', a)\n"
 WORKLOADS = ["cold", "warm", "shelve", "reduce", "clear", "other_func", "code_change"]
 ACTIONS = ["rm_output", "rm_meta", "rm_code", "rm_entry", "wipe_func", "clear_all", "store_same", "dir_only",
-           "output_only", "torn_code_13", "torn_code_half", "empty_code"]
+           "output_only", "torn_code_13", "torn_code_half", "empty_code", "same_mkdir"]
 
 _PLAN = {}
 
@@ -120,8 +120,16 @@ def prepare(params):
                  code_path=code_path, code=donor.files[code_path])
 
 
-def _interfere(fs, action):
+def _interfere(fs, action, event=None):
     """One step of 'another joblib process' on the shared directory (no events, no hook)."""
+    if action == "same_mkdir":
+        # another process creates the very directory the participant is about to create (or test for)
+        if event is not None and event[0] in ("mkdir", "stat") and event[1].startswith(memlib.CACHE + "/joblib/") \
+                and "." not in event[1].rsplit("/", 1)[1]:
+            parts = event[1].split("/")
+            for i in range(2, len(parts) + 1):
+                fs.dirs.add("/".join(parts[:i]))
+        return
     entry = _PLAN["donor_entry"]
     func_dir = entry.rsplit("/", 1)[0]
     cache_root = memlib.CACHE + "/joblib"
@@ -183,7 +191,7 @@ def _run_with_interference(wl, plan):
         i = count[0]
         count[0] += 1
         while todo and todo[0][0] == i:
-            _interfere(f, todo.pop(0)[1])
+            _interfere(f, todo.pop(0)[1], (kind,) + tuple(args[:1]))
     fs.hook = hook
     with memlib.env(fs, clock):
         try:
@@ -198,7 +206,7 @@ def _run_with_interference(wl, plan):
 def ob_rely(e: int, act: int, e2: int, act2: int) -> bool:
     """
     pre: 0 <= e <= 400 and -1 <= e2 <= 400
-    pre: 0 <= act <= 11 and 0 <= act2 <= 11
+    pre: 0 <= act <= 12 and 0 <= act2 <= 12
     post: _
     """
     H.enter()
@@ -212,7 +220,7 @@ def ob_rely(e: int, act: int, e2: int, act2: int) -> bool:
     H.assume(act == H.P("action"))
     ee = H.select_bisect(e, 0, n - 1)
     e2v = H.select_bisect(e2, -1, n - 1)
-    a2 = H.select(act2, 0, 11)
+    a2 = H.select(act2, 0, 12)
     with H.native():
         plan = [(ee, ACTIONS[H.P("action")])] + ([(e2v, ACTIONS[a2])] if e2v >= 0 else [])
         probs = _run_with_interference(H.P("workload"), plan)
